@@ -101,9 +101,20 @@ decreasing_by all_goals (simp only [List.length_drop, List.length_cons]; omega)
 /-- `Contentline.from_ical(ical)`: unfold one line -/
 def lineFromIcal (t : Str) : Str := unfold t
 
-/-- `Contentlines.from_ical(st)`: unfold, split on CRLF/LF, drop empty lines
+def BOM : Char := Char.ofNat 0xFEFF
+
+/-- a leading byte-order mark is dropped: bytes are decoded with utf-8-sig, a str loses a
+    leading U+FEFF in `Contentlines.from_ical` -/
+def stripBOM : Str → Str
+  | [] => []
+  | c :: cs => if c = BOM then cs else c :: cs
+
+/-- unfold, split on CRLF/LF, drop empty lines
     (the trailing '' appended by the code is not represented) -/
-def linesFromIcal (t : Str) : List Str := (splitNewline (unfold t)).filter (fun l => !l.isEmpty)
+def linesFromText (t : Str) : List Str := (splitNewline (unfold t)).filter (fun l => !l.isEmpty)
+
+/-- `Contentlines.from_ical(st)` -/
+def linesFromIcal (t : Str) : List Str := linesFromText (stripBOM t)
 
 /-- `Contentlines.to_ical()` as text: CRLF-join of the folded non-empty lines, plus a final CRLF -/
 def linesToIcal (ls : List Str) : Str :=
